@@ -113,7 +113,24 @@ def render_acts(p, acts, asy, names, first_tilde, last_in_step=True):
 
 
 def branch_names(p):
+    """Name tokens per named branch. Three spellings: plain identifiers, raw identifiers (`r#n3`), and
+    identifiers that reach the macro through a `macro_rules!` parameter (other hygiene context)."""
+    mode = p.id % 3 if any(b["named"] for b in p.branches) else 0
+    if mode == 1:
+        return {i: "r#n%d" % i for i, b in enumerate(p.branches) if b["named"]}
+    if mode == 2:
+        return {i: "$a%d" % i for i, b in enumerate(p.branches) if b["named"]}
     return {i: "n%d" % i for i, b in enumerate(p.branches) if b["named"]}
+
+
+def wrap_hygiene(p, invocation):
+    """For hygiene mode: the invocation text uses `$aK` metavariables; wrap it into a local macro_rules."""
+    named = [i for i, b in enumerate(p.branches) if b["named"]]
+    if not named or p.id % 3 != 2:
+        return invocation
+    params = ", ".join("$a%d:ident" % i for i in named)
+    args = ", ".join("n%d" % i for i in named)
+    return "{ macro_rules! __t { (%s) => { %s } } __t!(%s) }" % (params, invocation, args)
 
 
 def render_body(p, kind, hk):
@@ -205,10 +222,10 @@ def render_prog(p, want_async=True, skip=()):
         hk = hk_for(p, kind)
         body = render_body(p, kind, hk)
         if kind in ASYNC_KINDS:
-            lines.append("    pub fn k_%s() -> LocalFut { let f = %s! { %s }; Box::pin(async move { norm(f.await) }) }" % (kind, kind, body))
+            lines.append("    pub fn k_%s() -> LocalFut { let f = %s; Box::pin(async move { norm(f.await) }) }" % (kind, wrap_hygiene(p, "%s! { %s }" % (kind, body))))
             run = "Run::Async(p%d::k_%s)" % (p.id, kind)
         else:
-            lines.append("    pub fn k_%s() -> Out { norm(%s! { %s }) }" % (kind, kind, body))
+            lines.append("    pub fn k_%s() -> Out { norm(%s) }" % (kind, wrap_hygiene(p, "%s! { %s }" % (kind, body))))
             run = "Run::Sync(p%d::k_%s)" % (p.id, kind)
         hke = "None" if not hk else "Some(HK::%s)" % {"map": "Map", "and_then": "AndThen", "then": "Then"}[hk]
         cases.append("Case { prog: &p%d::PROG, kind: Kind::%s, hk: %s, run: %s }" % (p.id, KIND_ENUM[kind], hke, run))
